@@ -434,3 +434,275 @@ Proof.
     destruct (clean_rounds_spec (sn (snd_ s) - sf (snd_ s)) s _ _ _ outs M ltac:(lia)) as (s' & H1 & H2 & H3 & H4 & H5 & _).
     exists s', (outs ++ [seq_tags (sk (snd_ s)) (sn (snd_ s))]). csplit; try assumption; try reflexivity. right. reflexivity.
 Qed.
+
+(* ================================================================================================= *)
+(* downstream: server -> client                                                                      *)
+(* ================================================================================================= *)
+
+Definition dcur_msg (s : dsys) : dmsg :=
+  Data (dk (dsnd s)) (df (dsnd s)) (S (df (dsnd s)) =? dn (dsnd s)).
+
+Definition dclean_round (s : dsys) : option (dsys * option (list (nat * nat))) :=
+  match dexec 2 s (CData (dcur_msg s)) with
+  | Some (s1, o) =>
+      match dexec 2 s1 CGenAck with
+      | Some (s2, _) =>
+          match dexec 2 s2 (DAck (cur_dack s1)) with
+          | Some (s3, _) => Some (s3, o)
+          | None => None
+          end
+      | None => None
+      end
+  | None => None
+  end.
+
+Fixpoint dclean_rounds (n : nat) (s : dsys) (outs : list (list (nat * nat))) : option (dsys * list (list (nat * nat))) :=
+  match n with
+  | 0 => Some (s, outs)
+  | S n' =>
+      match dclean_round s with
+      | Some (s', o) => dclean_rounds n' s' (match o with Some b => outs ++ [b] | None => outs end)
+      | None => None
+      end
+  end.
+
+Definition dclean_packet (n : nat) (s : dsys) (outs : list (list (nat * nat))) :=
+  match dexec 2 s (DNew n) with
+  | Some (s1, _) => dclean_rounds n s1 outs
+  | None => None
+  end.
+
+Fixpoint dclean_packets (ns : list nat) (s : dsys) (outs : list (list (nat * nat))) :=
+  match ns with
+  | [] => Some (s, outs)
+  | n :: rest => match dclean_packet n s outs with Some (s', outs') => dclean_packets rest s' outs' | None => None end
+  end.
+
+Lemma dmsg_eqb_refl m : dmsg_eqb m m = true.
+Proof. destruct m as [k f l|k f]; cbn; rewrite !Nat.eqb_refl; [destruct l|]; reflexivity. Qed.
+
+Lemma dack_eqb_refl a : dack_eqb a a = true.
+Proof. unfold dack_eqb. rewrite !Nat.eqb_refl. reflexivity. Qed.
+
+Lemma dexec_data s k f l : In (Data k f l) (dmsgs s) -> dk (dsnd s) <= k + 3 ->
+  dexec 2 s (CData (Data k f l)) =
+  Some (match cli_rule (cR (drcv s) mod 8) (cf (drcv s)) (is_empty (cbuf (drcv s))) (k mod 8) (f mod 16) with
+        | CIgnore => (s, None)
+        | CNew => (with_rcv s {| cR := k; cf := f mod 16; cbuf := if l then [] else [(k, f)]; cmode := if l then CDone else CProg |},
+                   if l then Some [(k, f)] else None)
+        | CWeird => (with_rcv s {| cR := cR (drcv s); cf := f mod 16; cbuf := if l then [] else [(k, f)]; cmode := if l then CDone else CProg |},
+                     if l then Some [(k, f)] else None)
+        | CNext => (with_rcv s {| cR := cR (drcv s); cf := f mod 16; cbuf := if l then [] else cbuf (drcv s) ++ [(k, f)];
+                                  cmode := if l then CDone else CProg |},
+                    if l then Some (cbuf (drcv s) ++ [(k, f)]) else None)
+        end).
+Proof.
+  intros Hin Hd. unfold dexec.
+  rewrite (in_existsb dmsg_eqb dmsg_eqb_refl _ _ Hin).
+  assert (E : (dk (dsnd s) <=? k + 3) = true) by lia. rewrite E. cbn [negb orb].
+  destruct (cli_rule _ _ _ _ _); reflexivity.
+Qed.
+
+Definition add_dack (s : dsys) (a : dack) : dsys :=
+  {| dsnd := dsnd s; drcv := drcv s; dmsgs := dmsgs s; dacks := a :: dacks s; dsizes := dsizes s |}.
+
+Lemma dexec_genack s : dexec 2 s CGenAck = Some (add_dack s (cur_dack s), None).
+Proof. reflexivity. Qed.
+
+Definition with_dsnd (s : dsys) (x : dsender) (ms : list dmsg) : dsys :=
+  {| dsnd := x; drcv := drcv s; dmsgs := ms; dacks := dacks s; dsizes := dsizes s |}.
+
+Lemma dexec_ack_hit s b : In b (dacks s) -> dact (dsnd s) = true -> dk (dsnd s) <= b_sk b + 2 ->
+  b_seq b = dk (dsnd s) mod 8 -> b_frag b = df (dsnd s) -> S (df (dsnd s)) <= dn (dsnd s) ->
+  dexec 2 s (DAck b) =
+  Some (if S (df (dsnd s)) =? dn (dsnd s)
+        then with_dsnd s {| dk := dk (dsnd s); df := df (dsnd s); dn := dn (dsnd s); dact := false |} (dmsgs s)
+        else with_dsnd s {| dk := dk (dsnd s); df := S (df (dsnd s)); dn := dn (dsnd s); dact := true |}
+                       (Data (dk (dsnd s)) (S (df (dsnd s))) (S (S (df (dsnd s))) =? dn (dsnd s)) :: dmsgs s), None).
+Proof.
+  intros Hin Hact Hg Hs Hf Hle. unfold dexec.
+  rewrite (in_existsb dack_eqb dack_eqb_refl _ _ Hin). cbn [negb].
+  assert (E : dact (dsnd s) && (dk (dsnd s) <=? b_sk b + 2) && (b_seq b =? dk (dsnd s) mod 8) && (b_frag b =? df (dsnd s)) = true).
+  { rewrite Hact. cbn [andb]. lia. }
+  rewrite E. destruct (S (df (dsnd s)) =? dn (dsnd s)) eqn:E1; [reflexivity|].
+  assert (E2 : (S (df (dsnd s)) <? dn (dsnd s)) = true) by lia. rewrite E2. reflexivity.
+Qed.
+
+Lemma crule_next r cf e f : f = cf + 1 -> cli_rule r cf e r f = CNext.
+Proof.
+  intros ->. unfold cli_rule. rewrite Nat.eqb_refl. cbn [negb andb].
+  assert (E0 : (cf + 1 =? 0) = false) by lia. rewrite E0. rewrite andb_false_r. cbn [andb].
+  assert (E1 : (cf + 1 <=? cf) = false) by lia. assert (E2 : (cf + 1 <? cf + 1) = false) by lia. rewrite E1, E2. reflexivity.
+Qed.
+
+Lemma crule_dup r cf e f : f <= cf -> (cf =? 0) && (f =? 0) && e = false -> cli_rule r cf e r f = CIgnore.
+Proof.
+  intros H W. unfold cli_rule. rewrite Nat.eqb_refl. cbn [negb andb]. rewrite W.
+  assert (E1 : (f <=? cf) = true) by lia. rewrite E1. reflexivity.
+Qed.
+
+Lemma crule_weird r : cli_rule r 0 true r 0 = CWeird.
+Proof. unfold cli_rule. rewrite Nat.eqb_refl. reflexivity. Qed.
+
+Lemma crule_new R k cf e f : R < k <= R + 4 -> cli_rule (R mod 8) cf e (k mod 8) f = CNew.
+Proof.
+  intros H. unfold cli_rule.
+  pose proof (Nat.div_mod R 8 ltac:(lia)) as HR. pose proof (Nat.mod_upper_bound R 8 ltac:(lia)) as HRb.
+  pose proof (Nat.div_mod k 8 ltac:(lia)) as Hk. pose proof (Nat.mod_upper_bound k 8 ltac:(lia)) as Hkb.
+  rewrite (recent_cases (R mod 8) (k mod 8) HRb Hkb).
+  set (r := R mod 8) in *. set (kk := k mod 8) in *. set (qR := R / 8) in *. set (qk := k / 8) in *.
+  clearbody r kk qR qk.
+  assert (E1 : (kk =? r) = false) by lia. rewrite E1. cbn [andb negb orb].
+  destruct (r =? 0) eqn:T0; destruct (r <=? 1) eqn:T1; destruct (r <=? 2) eqn:T2;
+  match goal with |- context [ (kk =? ?a) || (kk =? ?b) || (kk =? ?c) ] =>
+    assert (F1 : (kk =? a) = false) by lia; assert (F2 : (kk =? b) = false) by lia; assert (F3 : (kk =? c) = false) by lia;
+    rewrite F1, F2, F3 end; reflexivity.
+Qed.
+
+Ltac dnsimp := cbn [dsnd drcv dmsgs dacks dsizes dk df dn dact cR cf cbuf cmode with_rcv add_dack with_dsnd cur_dack
+                    b_seq b_frag b_sk b_R b_rf] in *.
+
+(* sender on fragment j of packet k; the client holds exactly the fragments before j, or is on an
+   older packet at most 4 behind (j = 0) *)
+Record MidD (s : dsys) (k n j : nat) : Prop := {
+  d_inv : DInv s;
+  d_act : dact (dsnd s) = true;
+  d_k : dk (dsnd s) = k;
+  d_n : dn (dsnd s) = n;
+  d_j : df (dsnd s) = j;
+  d_lt : j < n;
+  d_in : In (dcur_msg s) (dmsgs s);
+  d_rcv : (cR (drcv s) = k /\ S (cf (drcv s)) = j /\ cmode (drcv s) = CProg) \/
+          (j = 0 /\ cR (drcv s) < k <= cR (drcv s) + 4)
+}.
+
+Lemma dclean_round_spec s k n j : MidD s k n j ->
+  exists s3 o, dclean_round s = Some (s3, o) /\ DInv s3 /\ dk (dsnd s3) = k /\ cR (drcv s3) = k /\
+    (forall q, dsizes s3 q = dsizes s q) /\
+    if S j =? n then o = Some (seq_tags k n) /\ dact (dsnd s3) = false
+    else o = None /\ MidD s3 k n (S j).
+Proof.
+  intros M. pose proof M as [I Hact Hk Hn Hj Hlt Hin Hrcv]. subst k n j.
+  pose proof (j_act _ I Hact) as Hpos. destruct (j_sn _ I Hpos) as [Hsn Hsf].
+  pose proof (j_sizes _ I (dk (dsnd s)) ltac:(lia)) as Hsz.
+  assert (Hclose : dclose s) by (unfold dclose; destruct Hrcv as [(A & _)|(_ & B)]; lia).
+  assert (Hf16 : df (dsnd s) mod 16 = df (dsnd s)) by (apply Nat.mod_small; lia).
+  remember (S (df (dsnd s)) =? dn (dsnd s)) as l eqn:L.
+  set (r1 := {| cR := dk (dsnd s); cf := df (dsnd s);
+                cbuf := if l then [] else seq_tags (dk (dsnd s)) (S (df (dsnd s)));
+                cmode := if l then CDone else CProg |}).
+  set (s1 := with_rcv s r1).
+  assert (E1 : dexec 2 s (CData (dcur_msg s)) = Some (s1, if l then Some (seq_tags (dk (dsnd s)) (S (df (dsnd s)))) else None)).
+  { unfold dcur_msg in *. rewrite <- L in Hin |- *. rewrite (dexec_data s _ _ _ Hin ltac:(lia)). rewrite Hf16.
+    destruct Hrcv as [(A & B & C)|(A & B)].
+    - rewrite A. rewrite (crule_next (dk (dsnd s) mod 8) (cf (drcv s)) _ (df (dsnd s)) ltac:(lia)).
+      pose proof (j_rcv _ I) as Hr. unfold drcv_ok in Hr. rewrite C in Hr. destruct Hr as (_ & _ & Hbuf).
+      rewrite Hbuf, A, B. rewrite <- seq_tags_S. unfold s1, r1. reflexivity.
+    - rewrite (crule_new (cR (drcv s)) (dk (dsnd s)) (cf (drcv s)) _ (df (dsnd s)) ltac:(lia)).
+      unfold s1, r1. rewrite A. destruct l; reflexivity. }
+  set (a := cur_dack s1).
+  set (s2 := add_dack s1 a).
+  assert (E2 : dexec 2 s1 CGenAck = Some (s2, None)) by reflexivity.
+  assert (E3 : dexec 2 s2 (DAck a) =
+               Some (if l
+                     then with_dsnd s2 {| dk := dk (dsnd s); df := df (dsnd s); dn := dn (dsnd s); dact := false |} (dmsgs s)
+                     else with_dsnd s2 {| dk := dk (dsnd s); df := S (df (dsnd s)); dn := dn (dsnd s); dact := true |}
+                                    (Data (dk (dsnd s)) (S (df (dsnd s))) (S (S (df (dsnd s))) =? dn (dsnd s)) :: dmsgs s), None)).
+  { rewrite L. apply (dexec_ack_hit s2 a).
+    - unfold s2. dnsimp. left. reflexivity.
+    - exact Hact.
+    - unfold a, s2, s1. dnsimp. lia.
+    - unfold a, s2, s1, r1. dnsimp. reflexivity.
+    - unfold a, s2, s1, r1. dnsimp. exact Hf16.
+    - unfold s2, s1. dnsimp. lia. }
+  set (s3 := if l
+             then with_dsnd s2 {| dk := dk (dsnd s); df := df (dsnd s); dn := dn (dsnd s); dact := false |} (dmsgs s)
+             else with_dsnd s2 {| dk := dk (dsnd s); df := S (df (dsnd s)); dn := dn (dsnd s); dact := true |}
+                            (Data (dk (dsnd s)) (S (df (dsnd s))) (S (S (df (dsnd s))) =? dn (dsnd s)) :: dmsgs s)) in *.
+  exists s3, (if l then Some (seq_tags (dk (dsnd s)) (S (df (dsnd s)))) else None).
+  assert (Hround : dclean_round s = Some (s3, if l then Some (seq_tags (dk (dsnd s)) (S (df (dsnd s)))) else None)).
+  { unfold dclean_round. rewrite E1. rewrite E2. fold a. rewrite E3. reflexivity. }
+  split; [exact Hround|].
+  assert (Hc1 : dclose s1) by (unfold dclose, s1, r1; dnsimp; lia).
+  destruct (dstep_inv _ _ _ _ I (dexec_sound _ _ _ _ _ E1) Hclose Hc1) as [I1 _].
+  assert (Hc2 : dclose s2) by (unfold dclose, s2, s1, r1; dnsimp; lia).
+  destruct (dstep_inv _ _ _ _ I1 (dexec_sound _ _ _ _ _ E2) Hc1 Hc2) as [I2 _].
+  assert (Hc3 : dclose s3) by (unfold dclose, s3, s2, s1, r1; destruct l; dnsimp; lia).
+  destruct (dstep_inv _ _ _ _ I2 (dexec_sound _ _ _ _ _ E3) Hc2 Hc3) as [I3 _].
+  split; [exact I3|].
+  split; [unfold s3, s2, s1, r1; destruct l; dnsimp; reflexivity|].
+  split; [unfold s3, s2, s1, r1; destruct l; dnsimp; reflexivity|].
+  split; [intros q; unfold s3, s2, s1; destruct l; reflexivity|].
+  unfold s3. destruct l.
+  - assert (Hlast : S (df (dsnd s)) = dn (dsnd s)) by lia. rewrite <- Hlast. split; reflexivity.
+  - split; [reflexivity|].
+    constructor; unfold s2, s1, r1; dnsimp; try assumption; try reflexivity; try lia.
+    + unfold dcur_msg. dnsimp. left. reflexivity.
+    + left. split; [reflexivity|]. split; reflexivity.
+Qed.
+
+Lemma dclean_rounds_spec : forall m s k n j outs, MidD s k n j -> j + m = n ->
+  exists s', dclean_rounds m s outs = Some (s', outs ++ [seq_tags k n]) /\ DInv s' /\
+             dact (dsnd s') = false /\ dk (dsnd s') = k /\ cR (drcv s') = k /\ (forall q, dsizes s' q = dsizes s q).
+Proof.
+  induction m as [|m IH]; intros s k n j outs M Hm.
+  - pose proof (d_lt _ _ _ _ M). lia.
+  - destruct (dclean_round_spec s k n j M) as (s3 & o & Hr & I3 & Hk3 & HR3 & Hsz3 & Hcase).
+    cbn [dclean_rounds]. rewrite Hr.
+    destruct (S j =? n) eqn:E.
+    + destruct Hcase as (Ho & Hact3). subst o.
+      assert (m = 0) by lia. subst m. cbn [dclean_rounds].
+      exists s3. csplit; try assumption; try reflexivity.
+    + destruct Hcase as (Ho & M3). subst o.
+      destruct (IH s3 k n (S j) outs M3 ltac:(lia)) as (s' & Hrs & I' & Ha' & Hk' & HR' & Hsz').
+      exists s'. csplit; try assumption; try reflexivity. intros q. rewrite Hsz', Hsz3. reflexivity.
+Qed.
+
+(* C02, logic part, downstream *)
+Theorem dclean_packet_spec s n outs :
+  DInv s -> dact (dsnd s) = false -> dk (dsnd s) <= cR (drcv s) + 3 -> 1 <= n <= 16 ->
+  exists s', dclean_packet n s outs = Some (s', outs ++ [seq_tags (S (dk (dsnd s))) n]) /\ DInv s' /\
+             dact (dsnd s') = false /\ dk (dsnd s') = S (dk (dsnd s)) /\ cR (drcv s') = S (dk (dsnd s)) /\
+             dsizes s' (S (dk (dsnd s))) = n.
+Proof.
+  intros I Hact Hgap Hn. unfold dclean_packet.
+  assert (E : dexec 2 s (DNew n) =
+              Some ({| dsnd := {| dk := S (dk (dsnd s)); df := 0; dn := n; dact := true |}; drcv := drcv s;
+                       dmsgs := Data (S (dk (dsnd s))) 0 (n =? 1) :: dmsgs s; dacks := dacks s;
+                       dsizes := fun k => if k =? S (dk (dsnd s)) then n else dsizes s k |}, None)).
+  { unfold dexec. rewrite Hact. cbn [negb andb].
+    destruct (1 <=? n) eqn:A; destruct (n <=? 16) eqn:B; try lia. reflexivity. }
+  rewrite E.
+  set (s1 := {| dsnd := {| dk := S (dk (dsnd s)); df := 0; dn := n; dact := true |}; drcv := drcv s;
+                dmsgs := Data (S (dk (dsnd s))) 0 (n =? 1) :: dmsgs s; dacks := dacks s;
+                dsizes := fun k => if k =? S (dk (dsnd s)) then n else dsizes s k |}) in *.
+  assert (Hc : dclose s) by (unfold dclose; lia).
+  assert (Hc1 : dclose s1) by (unfold dclose, s1; dnsimp; lia).
+  destruct (dstep_inv _ _ _ _ I (dexec_sound _ _ _ _ _ E) Hc Hc1) as [I1 _].
+  assert (M : MidD s1 (S (dk (dsnd s))) n 0).
+  { constructor; unfold s1; dnsimp; try assumption; try reflexivity; try lia.
+    - unfold dcur_msg. dnsimp. left. rewrite (Nat.eqb_sym n 1). reflexivity.
+    - right. split; [reflexivity|]. pose proof (j_le _ I). lia. }
+  destruct (dclean_rounds_spec n s1 (S (dk (dsnd s))) n 0 outs M ltac:(lia)) as (s' & Hr & I' & Ha' & Hk' & HR' & Hsz').
+  exists s'. csplit; try assumption; try reflexivity.
+  rewrite Hsz'. unfold s1. dnsimp. rewrite Nat.eqb_refl. reflexivity.
+Qed.
+
+Theorem dclean_packets_spec : forall ns s outs,
+  DInv s -> dact (dsnd s) = false -> dk (dsnd s) <= cR (drcv s) + 3 -> Forall (fun n => 1 <= n <= 16) ns ->
+  exists s', dclean_packets ns s outs = Some (s', outs ++ tags_from (S (dk (dsnd s))) ns) /\ DInv s' /\
+             dact (dsnd s') = false /\ dk (dsnd s') = dk (dsnd s) + length ns /\
+             (ns <> [] -> cR (drcv s') = dk (dsnd s')).
+Proof.
+  induction ns as [|n ns IH]; intros s outs I Hact Hgap Hall.
+  - exists s. cbn. rewrite app_nil_r. csplit; try assumption; try reflexivity; try lia. congruence.
+  - inversion Hall as [|x l Hn Hrest]; subst.
+    destruct (dclean_packet_spec s n outs I Hact Hgap Hn) as (s1 & Hp & I1 & Ha1 & Hk1 & HR1 & _).
+    cbn [dclean_packets]. rewrite Hp.
+    destruct (IH s1 (outs ++ [seq_tags (S (dk (dsnd s))) n]) I1 Ha1 ltac:(lia) Hrest) as (s' & Hps & I' & Ha' & Hk' & HR').
+    exists s'. rewrite Hps. rewrite Hk1. cbn [tags_from length]. rewrite <- app_assoc. cbn [app].
+    csplit; try assumption; try reflexivity; try lia.
+    intros _. destruct ns as [|n2 ns2].
+    + cbn in Hps. inversion Hps; subst. lia.
+    + apply HR'. discriminate.
+Qed.
